@@ -84,8 +84,15 @@ func mark(kind string) Rec { return Rec{"kind": kind} }
 // Cfg is the configuration of a writer/reader pair.
 type Cfg map[string]interface{}
 
+// AllowI15: the random driver's records keep their scores within 2..62 under offset 64, the printable range of
+// Illumina 1.5 as well; the bounded model's records (scores 0 and 31) are read and written as Illumina 1.3 only.
+var AllowI15 bool
+
 func encOf(offset int, seed int) alphabet.Encoding {
 	if offset == 64 {
+		if AllowI15 && seed%2 == 1 {
+			return alphabet.Illumina1_5
+		}
 		return alphabet.Illumina1_3
 	}
 	return []alphabet.Encoding{alphabet.Sanger, alphabet.Illumina1_8, alphabet.Illumina1_9}[seed%3]
@@ -197,7 +204,13 @@ func newReader(format string, cfg Cfg, text []byte, variant int) reader {
 	rd := bytes.NewReader(text)
 	switch format {
 	case "fasta":
-		var t seqio.SequenceAppender = linear.NewSeq("", nil, alphabet.DNA)
+		// the template the reader clones for every record is empty but, in half of the runs, pre-sized - as a caller
+		// expecting long sequences would make it
+		tmpl := linear.NewSeq("", nil, alphabet.DNA)
+		if (variant/4)%2 == 1 {
+			tmpl.Seq = make(alphabet.Letters, 0, 64)
+		}
+		var t seqio.SequenceAppender = tmpl
 		if variant%2 == 1 {
 			t = linear.NewQSeq("", nil, alphabet.DNA, alphabet.Sanger)
 		}
@@ -207,7 +220,9 @@ func newReader(format string, cfg Cfg, text []byte, variant int) reader {
 			if err != nil {
 				return nil, err
 			}
-			return seqRec(s, false), nil
+			rec := seqRec(s, false)
+			rec["_seq"] = s // looked at again when the whole file has been read (ReadAll)
+			return rec, nil
 		}
 	case "fastq":
 		r := fastq.NewReader(rd, linear.NewQSeq("", nil, alphabet.DNA, encOf(num(cfg["offset"]), variant)))
@@ -289,6 +304,17 @@ func ReadAll(format string, cfg Cfg, text []byte, variant int) (results []Rec, s
 				atomic.AddInt32(&Hangs, 1)
 				break
 			}
+		}
+		// a record handed out stays what it was while later ones are read: every sequence kept from an earlier
+		// Read is serialised again now
+		for i, r := range results {
+			if s, ok := r["_seq"].(seq.Sequence); ok {
+				again := seqRec(s, false)
+				for _, k := range []string{"name", "desc", "letters"} {
+					results[i][k] = again[k]
+				}
+			}
+			delete(results[i], "_seq")
 		}
 	}()
 	rd := newReader(format, cfg, text, variant)
